@@ -10,8 +10,8 @@ What a data model does for `execute`, `execute_condition`, `assign`, `log`, `exe
 `platformSend`.  `toEnv` packages a region table and `DMOps` as the `Env` the interpreter needs.
 
 Every evaluation site records whether the *code* raises `error.execution` there:
-* `If::execute` — `execute_condition(..).unwrap_or(false)`: **no** error event (the data model may
-  raise one itself inside `cond`);
+* `If::execute` — an erroring condition counts as false and one `error.execution` is raised
+  (since the `fix:` commit; before, nothing was raised);
 * `Expression`/`Log`/`ForEach`/`<send>` argument evaluation — whatever `ops.exec` raises, nothing more;
 * `<send>`: illegal delay, delay with `#_internal`, failing type expression, failed dispatch —
   `error.execution` by `SendParameters::execute` itself.
@@ -224,6 +224,8 @@ def execItem (ops : DMOps σ) (rs : Regions) (cfg : List Nat) (caller : Option S
     | .if_ c thenR elseR =>
       let r := ops.cond x.dm cfg c
       let x := x.absorb r
+      -- an erroring condition counts as false and `If::execute` raises error.execution
+      let x := if r.val.isNone then { x with raised := x.raised ++ [errorExecution] } else x
       if r.val.getD false then
         if thenR != 0 then execItems ops rs cfg caller f (regionOf rs thenR) x else (x, true)
       else if elseR != 0 then execItems ops rs cfg caller f (regionOf rs elseR) x
